@@ -426,12 +426,10 @@ def expect_basic(flag, hdr):
     if clear is None:
         return ("none", "malformed base64 payload must yield no credentials")
     if b"\r" in clear or b"\n" in clear:
-        # the code looks at the C string only: CR/LF after a NUL are cut off together with the rest (see the NUL finding)
-        if b"\x00" not in clear or (b"\r" in clear.split(b"\x00")[0] or b"\n" in clear.split(b"\x00")[0]):
-            return ("none", "credentials containing CR or LF must be refused")
-    kind = "creds"
+        return ("none", "credentials containing CR or LF must be refused")
     if b"\x00" in clear:
-        kind = "nul"
+        return ("none", "credentials containing NUL must be refused, not truncated")
+    kind = "creds"
     user, sep, pw = clear.partition(b":")
     if flag == "i":
         user = lower_ascii(user)
@@ -495,12 +493,9 @@ def oracle(line, impl):
         if exp[0] == "none":
             if impl != "none":
                 return exp[1]
-        elif exp[0] == "creds":
+        else:
             if impl != fmt_creds(*exp[1:]):
                 return "credentials are not split at the first colon"
-        else:   # NUL inside the decoded credentials: only refusing them (or passing them whole) is right
-            if impl != "none":
-                return "credentials containing NUL are silently truncated"
     return None
 
 
@@ -523,15 +518,10 @@ def known_class(line):
     pay, which = _payload_of(line)
     if pay is None:
         return None
-    if TRIPLE_PAD.fullmatch(pay):
-        # a dangling sextet 'A' followed by three '=' is accepted (decodes to nothing)
-        return "C36-triple-pad" if which == "L" else "C36-triple-pad-libnettle"
-    if w[0] in ("b", "B"):
-        clear = canonical_decode(pay)
-        if clear is not None and b"\x00" in clear:
-            head = clear.split(b"\x00")[0]
-            if b"\r" not in head and b"\n" not in head:
-                return "C36-nul-truncation"
+    if TRIPLE_PAD.fullmatch(pay) and which == "N":
+        # libnettle: a dangling sextet 'A' followed by three '=' is accepted (decodes to nothing).
+        # (lib/base64.cc was repaired by fc382f5, NUL truncation in decodeCleartext by 54130c8: no classes for them any more)
+        return "C36-triple-pad-libnettle"
     return None
 
 
@@ -596,8 +586,9 @@ ASSUMPTIONS = ["inputs of the known-finding classes are capped at %d per finding
 MANIFEST = {
     "text": "full for the coder: for every byte string and every chunking into update calls, decoding the encoding returns the string; "
             "every update stays within BASE64_DECODE_LENGTH / BASE64_ENCODE_LENGTH; accepted input is exactly canonical RFC 4648 text with "
-            "interleaved white space except for the proved counterexample 'A===' (known finding, present in libnettle too); Basic "
-            "credentials split at the first colon, with NUL truncation proved as a counterexample (known finding)",
+            "interleaved white space for lib/base64.cc (full strength, after fix fc382f5); for the libnettle the binary links the same "
+            "outside the proved counterexample class '<groups>A===' (known finding, system library); Basic credentials reach the "
+            "helper whole (split at the first colon, free of NUL/CR/LF, after fix 54130c8) or not at all",
     "note": "trusted: Lean kernel, table/macro translator, harness, python oracle; lib/base64.cc is compiled out in this build "
             "(HAVE_NETTLE_BASE64_H): the harness compiles it with the macro undefined and also drives libnettle as linked",
     "technique": "Lean 4 proofs (induction over 3-byte / 4-character groups, omega on the bit arithmetic, decide over regenerated tables) "
